@@ -216,6 +216,81 @@ def tlc_mc(spec_path, cfg_path, tag, workers=8, timeout=3000, xmx="8g", extra=No
     return res
 
 
+def spec_hash(*paths):
+    import hashlib
+    h = hashlib.sha256()
+    for d in ("abstract", "impl", "mc"):
+        for f in sorted((SPEC / d).glob("*.tla")):
+            h.update(f.read_bytes())
+    for p in paths:
+        h.update(Path(p).read_bytes())
+    return h.hexdigest()[:16]
+
+
+REPLAY_RE = re.compile(r'^<<"REPLAY", "(.*)">>$')
+
+
+def tlc_dump(spec_path, cfg_path, tag, workers=4, timeout=3000):
+    """P3: run TLC on a dump configuration (an invariant prints one JSON line per
+    terminal state) and return (ndjson path, stats).  The dump does not depend on
+    /repo, so it is cached under work/cache keyed by the hash of all specs + cfg."""
+    cache = WORK / "cache"
+    cache.mkdir(parents=True, exist_ok=True)
+    key = spec_hash(cfg_path) + "_" + Path(cfg_path).stem
+    out_path = cache / (key + ".ndjson")
+    meta_path = cache / (key + ".json")
+    lock = open(cache / ".lock", "w")
+    fcntl.flock(lock, fcntl.LOCK_EX)
+    try:
+        if out_path.exists() and meta_path.exists():
+            st = json.load(open(meta_path))
+            st["cached"] = True
+            return out_path, st
+        res = tlc_mc(spec_path, cfg_path, tag + "_dump", workers=workers, timeout=timeout)
+        if not res["ok"]:
+            raise ToolError(f"TLC dump run failed for {cfg_path}:\n" + res["out"][-3000:])
+        n = 0
+        with open(out_path.with_suffix(".tmp"), "w") as f:
+            for line in res["out"].splitlines():
+                m = REPLAY_RE.match(line.strip())
+                if m:
+                    js = m.group(1).replace('\\"', '"').replace("\\\\", "\\")
+                    json.loads(js)
+                    f.write(js + "\n")
+                    n += 1
+        os.replace(out_path.with_suffix(".tmp"), out_path)
+        st = dict(states=res["states"], distinct=res["distinct"], behaviours=n, wall=round(res["wall"], 1),
+                  coverage=res["coverage"], cached=False)
+        json.dump(st, open(meta_path, "w"))
+        return out_path, st
+    finally:
+        fcntl.flock(lock, fcntl.LOCK_UN)
+        lock.close()
+
+
+def tlc_mc_cached(spec_path, cfg_path, tag, workers=8, timeout=3000):
+    """P2 with a cache keyed by the hash of all specs + cfg (the model does not depend on /repo)."""
+    cache = WORK / "cache"
+    cache.mkdir(parents=True, exist_ok=True)
+    meta_path = cache / (spec_hash(cfg_path) + "_" + Path(cfg_path).stem + ".mc.json")
+    lock = open(cache / (".lock_" + Path(cfg_path).stem), "w")
+    fcntl.flock(lock, fcntl.LOCK_EX)
+    try:
+        if meta_path.exists():
+            st = json.load(open(meta_path))
+            st["cached"] = True
+            return st
+        res = tlc_mc(spec_path, cfg_path, tag, workers=workers, timeout=timeout)
+        st = dict(ok=bool(res["ok"]), states=res["states"], distinct=res["distinct"], wall=round(res["wall"], 1),
+                  coverage=res["coverage"], cached=False, tail=res["out"][-1500:] if not res["ok"] else "")
+        if st["ok"]:
+            json.dump(st, open(meta_path, "w"))
+        return st
+    finally:
+        fcntl.flock(lock, fcntl.LOCK_UN)
+        lock.close()
+
+
 # --------------------------------------------------------------------------- traces
 
 def read_cases(trace_path, wanted):
